@@ -43,7 +43,7 @@ func newEnv(seed uint64, dist hx.Counter) *env { return newEnvN(seed, dist, NACC
 func newEnvN(seed uint64, dist hx.Counter, nAcc, nVal int) *env {
 	e := &env{r: hx.NewRng(seed), acc: map[string]int64{}, accName: map[int64]string{}, den: map[string]int64{}, denName: map[int64]string{},
 		spools: map[string]int64{}, dapps: map[string]int64{}, colls: map[string]int64{}, recs: map[string]int64{}, dist: dist,
-		shareSet: map[int64][2]int64{}, bk: 1}
+		shareSet: map[int64][2]int64{}, bk: 1, coll: "coll1", dapp: "dapp1", rr: "rr/node1"}
 	// the default UBI record alone exceeds the default hard cap, so no UBI proposal could pass: the cap is raised in the genesis
 	e.c = abci.NewChain(abci.Config{Accounts: nAcc, Validators: nVal, Seed: 7, Gov: func(g *govtypes.GenesisState) { g.NetworkProperties.UbiHardcap = 60_000_000 }})
 	for name, id := range moduleIDs {
@@ -107,13 +107,13 @@ func (e *env) setup() {
 				{Denom: "xeth", Weight: sdk.NewDec(3), Amount: sdk.ZeroInt(), Deposits: true, Withdraws: true, Swaps: true}}})
 	}, nil, nil, map[string]interface{}{"what": "basket 2 (ubtc x1, xeth x3)"})
 	// a pool whose beneficiary lists overlap: a3 twice as account, a0 as account AND through role sudo, the role twice
-	mk2 := spendingtypes.NewMsgCreateSpendingPool("sp2", 0, 0, sdk.NewDecCoins(sdk.NewDecCoinFromDec("ukex", sdk.NewDecWithPrec(2, 1))),
+	mk2 := spendingtypes.NewMsgCreateSpendingPool("sp10", 0, 0, sdk.NewDecCoins(sdk.NewDecCoinFromDec("ukex", sdk.NewDecWithPrec(2, 1))),
 		sdk.NewDecWithPrec(33, 2), 300, 300, spendingtypes.PermInfo{OwnerAccounts: []string{e.addr(2), e.addr(2)}},
 		spendingtypes.WeightedPermInfo{Accounts: []spendingtypes.WeightedAccount{{Account: e.addr(3), Weight: sdk.OneDec()}, {Account: e.addr(3), Weight: sdk.NewDec(3)}, {Account: e.addr(0), Weight: sdk.NewDec(2)}},
 			Roles: []spendingtypes.WeightedRole{{Role: uint64(govtypes.RoleSudo), Weight: sdk.OneDec()}, {Role: uint64(govtypes.RoleSudo), Weight: sdk.NewDec(4)}}},
 		e.accAddr(2), false, 0)
 	mk2.ClaimExpiry = 10_000_000
-	e.tx("setup", 2, []sdk.Msg{mk2}, nil, map[string]interface{}{"what": "spending pool sp2 (overlapping beneficiary lists)"})
+	e.tx("setup", 2, []sdk.Msg{mk2}, nil, map[string]interface{}{"what": "spending pool sp10 (overlapping beneficiary lists)"})
 	mk := spendingtypes.NewMsgCreateSpendingPool("sp1", 0, 0, sdk.NewDecCoins(sdk.NewDecCoinFromDec("ukex", sdk.NewDecWithPrec(5, 1)), sdk.NewDecCoinFromDec("ubtc", sdk.NewDecWithPrec(1, 1))),
 		sdk.NewDecWithPrec(33, 2), 300, 300, spendingtypes.PermInfo{OwnerAccounts: []string{e.addr(2)}},
 		spendingtypes.WeightedPermInfo{Accounts: []spendingtypes.WeightedAccount{{Account: e.addr(3), Weight: sdk.OneDec()}, {Account: e.addr(4), Weight: sdk.NewDec(2)}},
@@ -121,9 +121,16 @@ func (e *env) setup() {
 		e.accAddr(2), false, 0)
 	mk.ClaimExpiry = 10_000_000
 	e.tx("setup", 2, []sdk.Msg{mk}, nil, map[string]interface{}{"what": "spending pool sp1"})
-	for i := 1; i <= 4; i++ {
-		e.tx("setup", i, []sdk.Msg{govtypes.NewMsgRegisterIdentityRecords(e.accAddr(i), []govtypes.IdentityInfoEntry{{Key: "moniker", Info: fmt.Sprintf("node%d", i)}, {Key: "site", Info: "x"}})},
-			nil, map[string]interface{}{"what": "identity records", "account": i})
+	// identifiers are chosen so that one is a PREFIX of another wherever a store key concatenates an identifier without a
+	// separator: monikers node1 / node10 (recovery tokens rr/node1, rr/node10), pools sp1 / sp10, collectives coll1 / coll10,
+	// dApps dapp1 / dapp10
+	for i := 0; i <= 4; i++ {
+		mon := fmt.Sprintf("node%d", i)
+		if i == 0 {
+			mon = "node10"
+		}
+		e.tx("setup", i, []sdk.Msg{govtypes.NewMsgRegisterIdentityRecords(e.accAddr(i), []govtypes.IdentityInfoEntry{{Key: "moniker", Info: mon}, {Key: "site", Info: "x"}})},
+			nil, map[string]interface{}{"what": "identity records", "account": i, "moniker": mon})
 	}
 	d := l2types.Dapp{Name: "dapp1", Denom: "dp1", Pool: l2types.LpPoolConfig{Ratio: sdk.NewDecWithPrec(5, 1), Drip: 100},
 		Issuance:   l2types.IssuanceConfig{Premint: sdk.NewInt(10), Postmint: sdk.NewInt(10)},
@@ -135,21 +142,37 @@ func (e *env) setup() {
 	}
 	e.tx("dapp_create", 2, []sdk.Msg{&l2types.MsgCreateDappProposal{Sender: e.addr(2), Dapp: d, Bond: coin("ukex", bond)}},
 		[]string{fmt.Sprintf("EscDeposit L2 %d 1 102 0 %d", kDapp, bond)}, map[string]interface{}{"dapp": "dapp1", "bond": bond})
+	d10 := d
+	d10.Name, d10.Denom = "dapp10", "dp10"
+	e.tx("dapp_create", 4, []sdk.Msg{&l2types.MsgCreateDappProposal{Sender: e.addr(4), Dapp: d10, Bond: coin("ukex", 15_000_000_000)}},
+		nil, map[string]interface{}{"dapp": "dapp10", "bond": 15_000_000_000})
+	// both validator accounts issue recovery tokens; a4 holds a little of both, a5 a little of one
 	e.tx("rec_issue", 1, []sdk.Msg{recoverytypes.NewMsgIssueRecoveryTokens(e.addr(1))}, nil, map[string]interface{}{"account": 1})
+	e.tx("rec_issue", 0, []sdk.Msg{recoverytypes.NewMsgIssueRecoveryTokens(e.addr(0))}, nil, map[string]interface{}{"account": 0})
+	e.bankSend(1, 4, "rr/node1", 200_000_000_000) // 2% of the supply
+	e.bankSend(0, 4, "rr/node10", 300_000_000_000)
+	e.bankSend(0, 5, "rr/node10", 5_000_000)
+	e.rrRegister(4) // registered for the first token he holds ...
+	e.rrRegister(4) // ... and for the second: every history has a holder of both prefix-colliding tokens
+	e.rrRegister(5)
 	// a stake large enough to bond a collective
 	e.delegate(3, 0, "ukex", 50_000_000_000)
 	cm := collectivestypes.NewMsgCreateCollective(e.accAddr(3), "coll1", "c04", coins("v1/ukex", 20_000_000_000),
 		collectivestypes.DepositWhitelist{Any: true}, collectivestypes.OwnersWhitelist{Accounts: []string{e.addr(3)}},
-		[]collectivestypes.WeightedSpendingPool{{Name: "sp1", Weight: sdk.NewDecWithPrec(5, 1)}, {Name: "sp2", Weight: sdk.NewDecWithPrec(25, 2)}, {Name: "sp1", Weight: sdk.NewDecWithPrec(25, 2)}}, 0, 14400, 0, sdk.NewDecWithPrec(33, 2), 300, 300)
+		[]collectivestypes.WeightedSpendingPool{{Name: "sp1", Weight: sdk.NewDecWithPrec(5, 1)}, {Name: "sp10", Weight: sdk.NewDecWithPrec(25, 2)}, {Name: "sp1", Weight: sdk.NewDecWithPrec(25, 2)}}, 0, 14400, 0, sdk.NewDecWithPrec(33, 2), 300, 300)
 	e.spDeposit(2, "sp1", "ukex", 40_000_000_000)
 	e.spDeposit(2, "sp1", "ubtc", 4_000_000_000)
 	e.spRegister(3, "sp1")
 	e.spRegister(4, "sp1")
 	e.spRegister(0, "sp1")
-	e.spDeposit(2, "sp2", "ukex", 30_000_000_000)
-	e.spRegister(3, "sp2")
-	e.spRegister(0, "sp2")
+	e.spDeposit(2, "sp10", "ukex", 30_000_000_000)
+	e.spRegister(3, "sp10")
+	e.spRegister(0, "sp10")
 	e.tx("coll_create", 3, []sdk.Msg{cm}, nil, map[string]interface{}{"collective": "coll1"})
+	cm10 := collectivestypes.NewMsgCreateCollective(e.accAddr(3), "coll10", "c04 (name extends coll1)", coins("v1/ukex", 10_000_000_000),
+		collectivestypes.DepositWhitelist{Any: true}, collectivestypes.OwnersWhitelist{Accounts: []string{e.addr(3)}},
+		[]collectivestypes.WeightedSpendingPool{{Name: "sp10", Weight: sdk.OneDec()}}, 0, 14400, 0, sdk.NewDecWithPrec(33, 2), 300, 300)
+	e.tx("coll_create", 3, []sdk.Msg{cm10}, nil, map[string]interface{}{"collective": "coll10"})
 	e.end()
 }
 
@@ -493,11 +516,11 @@ func (e *env) surplusProposal(target int, ids []uint64) bool {
 }
 
 func (e *env) collSendDonation(target int, amounts sdk.Coins) bool {
-	return e.proposal("coll_send_donation", collectivestypes.NewProposalCollectiveSendDonation("coll1", e.addr(target), amounts), nil,
+	return e.proposal("coll_send_donation", collectivestypes.NewProposalCollectiveSendDonation(e.coll, e.addr(target), amounts), nil,
 		map[string]interface{}{"target": target, "amounts": amounts.String()})
 }
 func (e *env) collRemove() bool {
-	return e.proposal("coll_remove", collectivestypes.NewProposalCollectiveRemove("coll1"), nil, map[string]interface{}{"collective": "coll1"})
+	return e.proposal("coll_remove", collectivestypes.NewProposalCollectiveRemove(e.coll), nil, map[string]interface{}{"collective": e.coll})
 }
 func (e *env) ubiProposal(name string, amt, period uint64) bool {
 	return e.proposal("ubi_proposal", ubitypes.NewUpsertUBIProposal(name, 0, 0, amt, period, "sp1"), nil, map[string]interface{}{"name": name, "kex": amt, "period": period})
@@ -605,8 +628,8 @@ func (e *env) spUpdate(pool string, rateMilli int64, dropRole bool) bool {
 }
 
 func (e *env) collUpdate(pools []collectivestypes.WeightedSpendingPool, claimPeriod uint64) bool {
-	c := e.c.App.CollectivesKeeper.GetCollective(e.ctx(), "coll1")
-	return e.proposal("coll_update", collectivestypes.NewProposalCollectiveUpdate("coll1", "edited", c.Status, c.DepositWhitelist, c.OwnersWhitelist, pools,
+	c := e.c.App.CollectivesKeeper.GetCollective(e.ctx(), e.coll)
+	return e.proposal("coll_update", collectivestypes.NewProposalCollectiveUpdate(e.coll, "edited", c.Status, c.DepositWhitelist, c.OwnersWhitelist, pools,
 		c.ClaimStart, claimPeriod, c.ClaimEnd, c.VoteQuorum, c.VotePeriod, c.VoteEnactment), nil, map[string]interface{}{"pools": len(pools), "claim_period": claimPeriod})
 }
 
@@ -650,24 +673,24 @@ func (e *env) tipCancel(u int, id uint64) bool {
 }
 
 func (e *env) dappBond(u int, amt int64) bool {
-	return e.tx("dapp_bond", u, []sdk.Msg{&l2types.MsgBondDappProposal{Sender: e.addr(u), DappName: "dapp1", Bond: coin("ukex", amt)}},
-		[]string{fmt.Sprintf("EscDeposit L2 %d 1 %d 0 %d", kDapp, 100+u, amt)}, map[string]interface{}{"account": u, "amount": amt})
+	return e.tx("dapp_bond", u, []sdk.Msg{&l2types.MsgBondDappProposal{Sender: e.addr(u), DappName: e.dapp, Bond: coin("ukex", amt)}},
+		[]string{fmt.Sprintf("EscDeposit L2 %d %d %d 0 %d", kDapp, e.dapps[e.dapp], 100+u, amt)}, map[string]interface{}{"account": u, "amount": amt})
 }
 func (e *env) dappReclaim(u int, amt int64) bool {
-	return e.tx("dapp_reclaim", u, []sdk.Msg{&l2types.MsgReclaimDappBondProposal{Sender: e.addr(u), DappName: "dapp1", Bond: coin("ukex", amt)}},
-		[]string{fmt.Sprintf("EscWithdraw L2 %d 1 %d 0 %d", kDapp, 100+u, amt)}, map[string]interface{}{"account": u, "amount": amt})
+	return e.tx("dapp_reclaim", u, []sdk.Msg{&l2types.MsgReclaimDappBondProposal{Sender: e.addr(u), DappName: e.dapp, Bond: coin("ukex", amt)}},
+		[]string{fmt.Sprintf("EscWithdraw L2 %d %d %d 0 %d", kDapp, e.dapps[e.dapp], 100+u, amt)}, map[string]interface{}{"account": u, "amount": amt})
 }
 
 func (e *env) collContribute(u int, den string, amt int64) bool {
-	return e.tx("coll_contribute", u, []sdk.Msg{collectivestypes.NewMsgBondCollective(e.accAddr(u), "coll1", coins(den, amt))}, nil,
+	return e.tx("coll_contribute", u, []sdk.Msg{collectivestypes.NewMsgBondCollective(e.accAddr(u), e.coll, coins(den, amt))}, nil,
 		map[string]interface{}{"account": u, "bonds": coins(den, amt).String()})
 }
 func (e *env) collDonate(u int, pct int64) bool {
-	return e.tx("coll_donate", u, []sdk.Msg{collectivestypes.NewMsgDonateCollective(e.accAddr(u), "coll1", 0, sdk.NewDecWithPrec(pct, 2), false)}, nil,
+	return e.tx("coll_donate", u, []sdk.Msg{collectivestypes.NewMsgDonateCollective(e.accAddr(u), e.coll, 0, sdk.NewDecWithPrec(pct, 2), false)}, nil,
 		map[string]interface{}{"account": u, "donation_percent": pct})
 }
 func (e *env) collWithdraw(u int) bool {
-	return e.tx("coll_withdraw", u, []sdk.Msg{collectivestypes.NewMsgWithdrawCollective(e.accAddr(u), "coll1")}, nil, map[string]interface{}{"account": u})
+	return e.tx("coll_withdraw", u, []sdk.Msg{collectivestypes.NewMsgWithdrawCollective(e.accAddr(u), e.coll)}, nil, map[string]interface{}{"account": u})
 }
 
 func (e *env) bankSend(u, v int, den string, amt int64) bool {
@@ -676,7 +699,16 @@ func (e *env) bankSend(u, v int, den string, amt int64) bool {
 }
 
 func (e *env) recBurn(u int, amt int64) bool {
-	return e.tx("rec_burn", u, []sdk.Msg{recoverytypes.NewMsgBurnRecoveryTokens(e.accAddr(u), coin("rr/node1", amt))}, nil, map[string]interface{}{"account": u, "amount": amt})
+	return e.tx("rec_burn", u, []sdk.Msg{recoverytypes.NewMsgBurnRecoveryTokens(e.accAddr(u), coin(e.rr, amt))}, nil, map[string]interface{}{"account": u, "token": e.rr, "amount": amt})
+}
+
+// MsgRegisterRRTokenHolder registers the sender for the first recovery token he holds enough of and is not yet registered
+// for; MsgClaimRRHolderRewards pays his recorded holder rewards out of the recovery module account
+func (e *env) rrRegister(u int) bool {
+	return e.tx("rr_register", u, []sdk.Msg{recoverytypes.NewMsgRegisterRRTokenHolder(e.accAddr(u))}, nil, map[string]interface{}{"account": u})
+}
+func (e *env) rrClaim(u int) bool {
+	return e.tx("rr_claim", u, []sdk.Msg{recoverytypes.NewMsgClaimRRHolderRewards(e.accAddr(u))}, nil, map[string]interface{}{"account": u})
 }
 
 func (e *env) ubi(amt uint64, dynamic bool) bool {
